@@ -195,8 +195,8 @@ Proof.
   pose proof (m_compare_spec (map lower a) (map lower b) (S (length a)) (cbytes_map_lower _ Ha) (cbytes_map_lower _ Hb)) as M.
   rewrite map_length in M. specialize (M (Nat.lt_succ_diag_r _)).
   destruct (list_eqb (map lower a) (map lower b)) eqn:E.
-  - apply list_eqb_eq in E. apply lexcmp_eq in E. rewrite E in M. apply sgn_zero in M. rewrite M. reflexivity.
+  - apply list_eqb_eq in E. apply (proj2 (lexcmp_eq _ _)) in E. rewrite E in M. apply (proj1 (sgn_zero _)) in M. rewrite M. reflexivity.
   - destruct (m_compare (S (length a)) (map lower a ++ [0]) (map lower b ++ [0]) =? 0) eqn:E2; auto.
-    apply Z.eqb_eq in E2. rewrite E2, sgn_0 in M. symmetry in M. apply lexcmp_eq in M.
+    apply Z.eqb_eq in E2. rewrite E2, sgn_0 in M. symmetry in M. apply (proj1 (lexcmp_eq _ _)) in M.
     apply list_eqb_eq in M. congruence.
 Qed.
